@@ -156,7 +156,8 @@ def conv_configs(tier, seed):
     at = math.atan(3.0 / 4.0)
     circ = [0.25, 0.73, 2.5, 10.5] + ([2.0 ** -6, 0.5, 1.5] if big else [])
     ell = [(0.5, 0.25, math.pi / 6), (2.5, 0.73, 1.0), (3.65, 1.5, -0.3), (10.5, 0.25, at)]
-    rect = [(1.0, 0.5, math.pi / 6), (5.0, 1.46, 1.0), (7.3, 3.0, -0.3), (21.0, 0.5, at), (3.0, 2.0, 0.0)]
+    rect = [(1.0, 0.5, math.pi / 6), (5.0, 1.46, 1.0), (7.3, 3.0, -0.3), (21.0, 0.5, at), (3.0, 2.0, 0.0), (4.0, 1.0, 2.0),
+            (4.0, 1.5, -2.0)]
     if big:
         ell += [(1.0, 1.0, math.pi / 4), (0.73, 2.5, 2.5), (8.0, 0.5, math.pi / 2), (2.0 ** -6, 0.25, 1.0)]
         rect += [(2.0, 2.0, math.pi / 4), (1.46, 5.0, 2.5), (16.0, 1.0, math.pi / 2), (2.0 ** -5, 0.5, 1.0)]
@@ -574,6 +575,25 @@ def _conv_reference(cfg, ix0, iy0, nx, ny):
     return ref, L, k
 
 
+def _conv_extent(cfg):
+    """(xmin, xmax, ymin, ymax) of the shape itself."""
+    shape = cfg['shape']
+    cx, cy = cfg['phase']
+    if shape in ('circle', 'ellipse'):
+        rx, ry, th = _params(cfg)
+        hx = math.hypot(rx * math.cos(th), ry * math.sin(th))
+        hy = math.hypot(rx * math.sin(th), ry * math.cos(th))
+        return (cx - hx, cx + hx, cy - hy, cy + hy)
+    if shape == 'rectangle':
+        verts = PA.rectangle_vertices(cx, cy, cfg['width'], cfg['height'], cfg['theta'])
+    else:
+        vx, vy = _poly_vertices(cfg)
+        verts = list(zip(vx, vy))
+    xs = [float(v[0]) for v in verts]
+    ys = [float(v[1]) for v in verts]
+    return (min(xs), max(xs), min(ys), max(ys))
+
+
 def check_conv(res, trk, cfg, ns=NS):
     shape = cfg['shape']
     res.states += 1
@@ -614,6 +634,15 @@ def check_conv(res, trk, cfg, ns=NS):
         v = np.asarray(data, float)
         res.transitions += 1
         res.evaluations += int(v.size)
+        ext = _conv_extent(cfg)
+        lim = (ix0 - 0.5, ix0 + nx - 0.5, iy0 - 0.5, iy0 + ny - 0.5)
+        tol = 1e-9 * (1.0 + max(abs(e) for e in ext))
+        if ext[0] < lim[0] - tol or ext[1] > lim[1] + tol or ext[2] < lim[2] - tol or ext[3] > lim[3] + tol:
+            res.violation(ID, 'mask_box_truncates_shape', {**case, 'n': n},
+                          f'{shape} {_desc(cfg)}: the mask covers x in [{lim[0]}, {lim[1]}], y in [{lim[2]}, {lim[3]}] but the shape extends '
+                          f'over x in [{ext[0]!r}, {ext[1]!r}], y in [{ext[2]!r}, {ext[3]!r}]: covered pixels are missing from the mask',
+                          list(ext), list(lim))
+            return
         bound = 4.0 * (L + np.maximum(k, 1) / float(n)) / float(n) + EPS
         with np.errstate(invalid='ignore'):
             err = np.abs(v - ref)
